@@ -30,6 +30,9 @@ def check(c: Check):
     clause_b(c)
     clause_c(c)
     clause_d(c)
+    clause_e(c)
+    clause_f(c)
+    clause_g(c)
 
 
 # ---------------------------------------------------------------- a
@@ -260,3 +263,327 @@ def clause_d(c: Check):
     ok = any(isinstance(n_, ast.Call) and isinstance(n_.func, ast.Attribute) and n_.func.attr == 'error_plain'
              for n_ in ast.walk(tp.node))
     c.expect(ok, 'C09-d', 'TokenParser/invalid-head-is-an-error', 'an invalid head token is not reported', tp.loc())
+
+
+# ---------------------------------------------------------------- e
+_DISCARD = 'consume_current_line_as_string_of_remaining_part_of_current_line'
+_CAPTURE = 'consume_remaining_part_of_current_line_as_string'
+_REPORT = 'report_superfluous_arguments_if_not_at_eol'
+_PURE_QUERIES = {'is_at_eol', 'has_current_line', 'remaining_part_of_current_line', 'is_null', 'strip',
+                 'has_valid_head_token', 'head_is_unquoted_and_equals', 'has_valid_head_matching', 'remaining_source'}
+
+
+def clause_e(c: Check):
+    """TS "nothing is swallowed": where the rest of the current line is thrown away (the result of the discarding
+    call is not used), every path reaching the call has established what the rest of the line is - end of line
+    tested, the whole remaining text compared, superfluous arguments reported, or the text taken with the
+    capturing call - and has not consumed anything from the token stream since."""
+    ix, fo = c.ix, c.fo
+    sites = []
+    for m in ix.modules_mentioning(_DISCARD):
+        if m.name.startswith('exactly_lib.section_document.element_parsers.token_stream'):
+            continue  # the definition and its delegation
+        for node in ast.walk(m.tree):
+            if isinstance(node, ast.Expr) and isinstance(node.value, ast.Call) and isinstance(node.value.func, ast.Attribute) \
+                    and node.value.func.attr == _DISCARD:
+                f = m.enclosing_func(node)
+                if f is not None:
+                    sites.append((m, f, node.value))
+    c.floor('C09-e', 'places where the rest of a line is discarded', len(sites), 5)
+    done = set()
+    for m, f, call in sites:
+        if f in done:
+            continue
+        done.add(f)
+
+        class H(Hooks):
+            loop_bound = 2
+
+            def inline(self, fd, st, f=f):
+                # helpers of the same class / module that are handed the token parser
+                return fd.module is f.module and fd is not f and (fd.cls is f.cls or fd.cls is None) and fd.name.startswith('_')
+
+        paths = util.func_paths(ix, fo, f, H())
+        c.count(len(paths))
+        bad = {}
+        n_reached = 0
+        for p in paths:
+            known = None
+            for e in p.trace:
+                if e.kind == 'guard':
+                    test, truth = e.data
+                    src = unparse(test)
+                    if isinstance(test, ast.Attribute) and test.attr == 'is_at_eol':
+                        known = 'end of line tested' if truth else None
+                    elif isinstance(test, ast.Compare) and len(test.ops) == 1 and isinstance(test.ops[0], ast.Eq) \
+                            and 'remaining_part_of_current_line' in src and 'head' not in src:
+                        known = 'whole remaining text compared' if truth else known
+                    continue
+                if e.kind != 'call' or not isinstance(e.node.func, ast.Attribute):
+                    if e.kind == 'call' and any(_is_token_parser(a) for a in e.data.get('args', [])):
+                        known = None
+                    continue
+                attr = e.node.func.attr
+                if attr == _DISCARD and isinstance(parent(e.node), ast.Expr):
+                    n_reached += 1
+                    if known is None:
+                        bad[e.node.lineno] = e
+                    known = None
+                elif attr == _REPORT:
+                    known = 'superfluous arguments reported'
+                elif attr == _CAPTURE:
+                    known = 'text captured'
+                elif attr in _PURE_QUERIES:
+                    pass
+                elif _is_token_parser(e.data.get('recv')) or _is_token_parser(_attr_base(e.data.get('callee_val'))) \
+                        or any(_is_token_parser(a) for a in e.data.get('args', [])):
+                    known = None
+        for m2, f2, call2 in sites:
+            if f2 is f:
+                key = 'discard@%s' % f.key
+                c.expect(call2.lineno not in bad, 'C09-e', key,
+                         'the rest of the current line is discarded on a path that has not established what it holds '
+                         '(arguments can be swallowed silently)', '%s:%d' % (m.relpath, call2.lineno))
+        c.require(n_reached > 0, 'C09-e: no analysed path of %s reaches its discarding call' % f.key)
+
+
+def _attr_base(v):
+    if v is None:
+        return None
+    return util.attr_chain(v)[0]
+
+
+def _is_token_parser(v) -> bool:
+    r = util.root_sym(v) if v is not None else None
+    cls = getattr(r, 'cls', None)
+    return isinstance(cls, ClassDef) and cls.name in ('TokenParser', 'TokenStream')
+
+
+# ---------------------------------------------------------------- f
+def _affine(v, atoms):
+    """linear form {atom id: coefficient, None: constant} of an abstract integer built with + and -"""
+    if isinstance(v, K) and isinstance(v.v, int) and not isinstance(v.v, bool):
+        return {None: v.v}
+    if isinstance(v, Sym):
+        o = v.origin
+        if o and o[0] == 'op' and o[1] == 'BinOp' and isinstance(v.node, ast.BinOp) \
+                and isinstance(v.node.op, (ast.Add, ast.Sub)) and len(o[2]) == 2:
+            l, r = _affine(o[2][0], atoms), _affine(o[2][1], atoms)
+            if l is None or r is None:
+                return None
+            sign = 1 if isinstance(v.node.op, ast.Add) else -1
+            out = dict(l)
+            for k, x in r.items():
+                out[k] = out.get(k, 0) + sign * x
+            return {k: x for k, x in out.items() if x != 0 or k is None}
+        if o and o[0] == 'call' and o[1] == 'builtins.len' and len(o[2]) == 1:
+            key = ('len', id(util.root_sym(o[2][0])))
+            atoms[key] = o[2][0]
+            return {key: 1}
+        key = ('val', id(util.root_sym(v)))
+        atoms[key] = v
+        return {key: 1}
+    return None
+
+
+def _diff(a, b):
+    out = dict(a)
+    for k, x in b.items():
+        out[k] = out.get(k, 0) - x
+    return {k: x for k, x in out.items() if x != 0}
+
+
+def clause_f(c: Check):
+    """symbol reference scanner: offsets.  For a candidate `@[` at p with name n (the identifier characters that
+    follow):  the name is read from p+len(BEGIN); the end delimiter is looked for at p+len(BEGIN)+len(n); the rest
+    starts len(END) later; after a failed candidate the search resumes at r with p < r <= p+len(BEGIN)+len(n) - a
+    later resume position skips a reference that starts right there."""
+    ix, fo = c.ix, c.fo
+    f = ix.func(SS + ':_find_symbol_reference')
+    begin = fo.fold_path(SS + ':SYMBOL_REFERENCE_BEGIN')
+    end = fo.fold_path(SS + ':SYMBOL_REFERENCE_END')
+    c.require(isinstance(begin, str) and isinstance(end, str), 'C09-f: reference delimiters are not constant strings')
+    extract = ix.func(SS + ':_extract_symbol_name')
+
+    class H(Hooks):
+        loop_bound = 2
+
+    paths = util.func_paths(ix, fo, f, H())
+    c.count(len(paths))
+    n_resume = n_ok = 0
+    for p in paths:
+        atoms = {}
+        cand = None    # value of the current candidate position
+        name = None
+        for idx, e in enumerate(p.trace):
+            if e.kind != 'call':
+                continue
+            d = e.data
+            attr = e.node.func.attr if isinstance(e.node.func, ast.Attribute) else None
+            args = d['args']
+            if attr == 'find':
+                ok = args and isinstance(args[0], K) and args[0].v == begin
+                c.expect(bool(ok), 'C09-f', 'scanner/searches-begin-delimiter', 'the scanner does not search for %r' % begin,
+                         f.loc())
+                if len(args) > 1 and cand is not None:
+                    n_resume += 1
+                    r = _affine(args[1], atoms)
+                    lo = _affine(cand, atoms)
+                    good = False
+                    if r is not None and lo is not None:
+                        dlt = _diff(r, lo)
+                        const = dlt.pop(None, 0)
+                        if not dlt:
+                            good = 1 <= const <= len(begin)
+                        elif name is not None and dlt == {('len', id(util.root_sym(name))): 1}:
+                            good = 1 <= const <= len(begin)
+                    c.expect(good, 'C09-f', 'scanner/resume-position',
+                             'after a failed candidate the search resumes at %s: not within (candidate, candidate + %d + '
+                             'len(name)] - a reference starting right after the failed one is skipped, or the scan does '
+                             'not advance' % (unparse(e.node.args[1]), len(begin)), '%s:%d' % (f.module.relpath, e.node.lineno))
+                cand = _value_of_call(p, idx)
+                name = None
+            elif d.get('callee') == extract and cand is not None:
+                st = _affine(args[1], atoms) if len(args) > 1 else None
+                lo = _affine(cand, atoms)
+                ok = st is not None and lo is not None and _diff(st, lo) == {None: len(begin)}
+                c.expect(bool(ok), 'C09-f', 'scanner/name-starts-after-begin',
+                         'the name is read from %s, not from right after the %d characters of %r' % (
+                             unparse(e.node.args[1]) if len(e.node.args) > 1 else '?', len(begin), begin), f.loc())
+                name = _value_of_call(p, idx)
+            elif attr == 'startswith' and cand is not None and name is not None:
+                ok = args and isinstance(args[0], K) and args[0].v == end and len(args) > 1
+                if ok:
+                    at = _affine(args[1], atoms)
+                    lo = _affine(cand, atoms)
+                    ok = at is not None and lo is not None and \
+                         _diff(at, lo) == {None: len(begin), ('len', id(util.root_sym(name))): 1}
+                c.expect(bool(ok), 'C09-f', 'scanner/end-delimiter-position',
+                         'the end delimiter is not looked for right after the name', f.loc())
+        if p.kind == 'return' and isinstance(p.val, ListVal) and len(p.val.items) == 3 and cand is not None \
+                and not (isinstance(p.val.items[0], K)):
+            pos, nm, rest = p.val.items
+            ok = util.root_sym(pos) is util.root_sym(cand) and name is not None and util.root_sym(nm) is util.root_sym(name)
+            o = rest.origin if isinstance(rest, Sym) else None
+            if ok and o and o[0] == 'index' and isinstance(rest.node, ast.Subscript) and isinstance(rest.node.slice, ast.Slice) \
+                    and rest.node.slice.upper is None and rest.node.slice.lower is not None:
+                so = o[2].origin if isinstance(o[2], Sym) else None
+                low = so[2][0] if so and so[0] == 'op' and so[2] else None
+                at = _affine(low, atoms) if low is not None else None
+                lo = _affine(cand, atoms)
+                ok = at is not None and _diff(at, lo) == {None: len(begin) + len(end), ('len', id(util.root_sym(name))): 1}
+            else:
+                ok = False
+            n_ok += 1
+            c.expect(bool(ok), 'C09-f', 'scanner/result',
+                     'a found reference is not reported as (its position, its name, the text after its end delimiter)',
+                     f.loc())
+    c.floor('C09-f', 'resumed searches analysed', n_resume, 2)
+    c.floor('C09-f', 'successful finds analysed', n_ok, 2)
+
+
+def _value_of_call(p, ev_idx):
+    """the abstract value a call event produced (looked up among later uses)"""
+    def visit(v, depth=0):
+        if isinstance(v, Sym):
+            o = v.origin
+            if o and o[0] == 'call' and o[5] == ev_idx:
+                return v
+            if o and depth < 6:
+                for x in o[1:]:
+                    for y in (x if isinstance(x, (list, tuple)) else [x]):
+                        if isinstance(y, (Sym, ListVal)):
+                            r = visit(y, depth + 1)
+                            if r is not None:
+                                return r
+        if isinstance(v, ListVal):
+            for x in v.items:
+                r = visit(x, depth + 1)
+                if r is not None:
+                    return r
+        return None
+
+    for e in p.trace[ev_idx + 1:]:
+        if e.kind == 'call':
+            for a in list(e.data.get('args', [])) + list(e.data.get('kwargs', {}).values()):
+                r = visit(a)
+                if r is not None:
+                    return r
+        elif e.kind == 'guard':
+            pass
+    r = visit(p.val) if p.val is not None else None
+    if r is not None:
+        return r
+    for fr in p.state.frames:
+        for v in fr.env.values():
+            r = visit(v)
+            if r is not None:
+                return r
+    return None
+
+
+# ---------------------------------------------------------------- g
+def _always_raises(fd) -> bool:
+    if not isinstance(fd, FuncDef):
+        return False
+    own = [n for n in walk_own(fd.node)]
+    return any(isinstance(n, ast.Raise) for n in own) and not any(isinstance(n, ast.Return) for n in own) \
+        and isinstance(fd.node.body[-1], ast.Raise)
+
+
+def clause_g(c: Check):
+    """here-document body: every line up to the first line that equals the marker belongs to the body, in order and
+    unchanged; only the marker (success) or the end of the source (syntax error) ends it"""
+    ix, fo = c.ix, c.fo
+    f = ix.func('exactly_lib.impls.types.string_.parse_rich_string:HereDocParser._parse_contents')
+    mk = ix.func('exactly_lib.impls.types.string_.parse_rich_string:_sdv_from_lines')
+
+    class H(Hooks):
+        loop_bound = 2
+
+    paths = util.func_paths(ix, fo, f, H())
+    c.count(len(paths))
+    n_ret = 0
+    marker_param = [p_.arg for p_ in f.positional_params() if 'marker' in p_.arg]
+    c.require(len(marker_param) == 1, 'C09-g: marker parameter of _parse_contents not found')
+    for p in paths:
+        lines = []
+        for idx, e in enumerate(p.trace):
+            if e.kind == 'call' and isinstance(e.node.func, ast.Attribute) and e.node.func.attr == _CAPTURE:
+                lines.append(idx)
+            if e.kind == 'guard':
+                test, truth = e.data
+                ok = False
+                if isinstance(test, ast.Attribute) and test.attr == 'has_current_line':
+                    ok = True
+                elif isinstance(test, ast.Compare) and len(test.ops) == 1 and isinstance(test.ops[0], ast.Eq):
+                    names = {x.id for x in ast.walk(test) if isinstance(x, ast.Name)}
+                    ok = marker_param[0] in names and len(names) == 2 and not any(
+                        isinstance(x, ast.Call) for x in ast.walk(test))
+                c.expect(ok, 'C09-g', 'here-document/only-marker-or-end-of-source-ends-the-body',
+                         'the body of a here-document also depends on the condition `%s`' % unparse(test),
+                         '%s:%d' % (f.module.relpath, test.lineno))
+        if p.kind == 'return':
+            o = p.val.origin if isinstance(p.val, Sym) else None
+            if o and o[0] == 'call' and o[1] == mk.key:
+                n_ret += 1
+                body = o[2][0] if o[2] else None
+                items = body.items if isinstance(body, ListVal) else None
+                want = lines[:-1]   # every captured line but the marker line
+                got = []
+                for x in items or []:
+                    xo = x.origin if isinstance(x, Sym) else None
+                    got.append(xo[5] if xo and xo[0] == 'call' else None)
+                c.expect(items is not None and got == want, 'C09-g', 'here-document/body-is-the-lines-before-the-marker',
+                         'with %d lines before the marker the body holds lines %s of the source' % (
+                             len(want), [lines.index(g) if g in lines else '?' for g in got] if items is not None else '?'),
+                         f.loc())
+            elif o and o[0] == 'call' and _always_raises(ix.try_lookup(o[1]) if ':' in o[1] else None):
+                # `return _raise_...()`: the end of the source was reached without the marker
+                c.expect(not any(t is True for t in [e.data[1] for e in p.trace if e.kind == 'guard'][-1:]), 'C09-g',
+                         'here-document/missing-marker-is-an-error', 'the missing-marker error is raised although a '
+                                                                     'line was available', f.loc())
+            else:
+                c.bad('C09-g', 'here-document/result', 'the here-document is not built from its lines (%s)' % util.describe(p.val),
+                      f.loc())
+    c.floor('C09-g', 'completed here-documents analysed', n_ret, 2)
